@@ -143,7 +143,7 @@ class Check:
         self.trusted = []
         self.findings = load_findings()
         os.makedirs(REPLAYS, exist_ok=True)
-        for f in os.listdir(REPLAYS):          # replays of earlier runs of this check/seed
+        for f in ([] if os.environ.get("VERIF_REPLAYING") else os.listdir(REPLAYS)):   # replays of earlier runs of this check/seed
             if f.startswith("%s-%s-" % (self.pid, self.seed)):
                 try:
                     os.remove(os.path.join(REPLAYS, f))
